@@ -42,7 +42,12 @@ EXTRA_TRUSTED = [
     "np.loadtxt field separators: ASCII whitespace only (files generated here are ASCII); int64 wrap-around of "
     "`1 << arange(size)` for size > 62 is outside the model",
 ]
-RULE = ("cases: (a) generate_hilbert_space for every n up to 8 (quick) / 12 (thorough) in full, sampled rows for every larger n up to 20"
+RULE = ("argument forms: every integer option (size, num, num_visible / num_hidden / num_aux, the site of flip_spin, k of sample) and every boolean "
+        "option (gpu, include_extras, overwrite) of every public call is handed over in a form drawn from the case's own seeded streams "
+        "(python int / np.int64 / np.int32 / np.intp / np.uint8 / np.int8 / np.int16 / 0-d ndarray / 0-d tensor as far as the unchanged library accepts "
+        "the form; bool / 0-1 / np.bool_ / numpy comparison / 0-d array / 0-d tensor), by keyword or positionally; each form of `size` and of "
+        "`num_visible` (default size) is also forced once per device form / state class. "
+        "cases: (a) generate_hilbert_space for every n up to 8 (quick) / 12 (thorough) in full, sampled rows for every larger n up to 20"
         ", oversize and size=None/0 default cases on all three state classes; (a') call sequences in which a previously returned space / "
         "vector is modified in place (flip_spin, chain buffer of sample(overwrite=True), direct edits, zero_/fill_/copy_, numpy view) "
         "before the next call on the same state, another state object, another size, the default call form, and before an internal use "
@@ -153,6 +158,132 @@ NUM_FORMS = ("int", "np64", "arr0")
 DEVICE_FORMS = ("omit", "str", "obj", "none")
 
 
+SIZE_SWEEP = SIZE_FORMS + ("arr0",)      # forms forced one by one (key "size_form") on small spaces; "arr0": 0-d ndarray, not hashable
+
+
+# ---------------------------------------------------------------- argument forms (round 5): every integer / boolean option of every
+# public call is handed over in a form drawn from the case's own streams, `IntStream(case["iseed"])` / `qc.Flags(case["fseed"])`, by keyword
+# or positionally.  A case WITHOUT "iseed" (corpus, replays written before this round) takes the code paths it took before, unchanged.
+# Forms per option = what the UNCHANGED library accepts with the meaning of the plain int / bool (probe: notes/C19.md "Argument-form sweep"):
+#   size (generate_hilbert_space, subspace_vector), num_visible / num_hidden / num_aux: all of qc.INT_FORMS + np.int8 / np.int16 where the
+#       value fits (the library converts these with int() at once; that the narrow dtypes mean the same int is what fix F15 established);
+#   num (subspace_vector): python int, np.int64, np.intp, 0-d int64 ndarray, and np.int32 when 2^size fits in 32 bits. NOT the 0-d torch
+#       tensor (ValueError in the clean code) and NOT np.uint8 / np.int8 / np.int16: the index enters arithmetic as it is, and NumPy 2 itself
+#       refuses or wraps mixed arithmetic of a narrow / unsigned scalar with a Python int that does not fit (`np.uint8(200) % 2 ** 9`,
+#       `-1 - np.uint8(0)` raise OverflowError) — a harmless rewrite may use such arithmetic;
+#   flip_spin's i, sample's k (tools that modify earlier results): qc.INT_FORMS without np.uint8 (same reason), no narrow dtypes;
+#   gpu (value False), include_extras, overwrite: all of qc.FLAG_FORMS
+NARROW = (("np.int8", np.int8), ("np.int16", np.int16))
+NUM_ALLOWED = ("py", "np.int64", "np.intp", "np0d")
+TOOL_ALLOWED = tuple(f for f in qc.INT_FORMS if f != "np.uint8")
+
+
+def fit_forms(n, allowed):
+    """the forms of `allowed` that can hold the value n (np.uint8 is replaced by np.int64 inside qc.int_forms when n > 255)"""
+    if not -2 ** 63 <= n < 2 ** 63:
+        return ("py",)
+    return tuple(f for f in allowed if f != "np.int32" or -2 ** 31 <= n < 2 ** 31)
+
+
+class IntStream(qc.Ints):
+    """qc.Ints for ONE case + the narrow numpy dtypes (np.int8 / np.int16: the forms on which defect F15 showed) + a "pos" entry in the
+    descriptor (hand the option over positionally where the signature allows).  `IntStream(None)`: plain Python ints, by keyword.
+    Within ONE case a 0-d numpy array and a 0-d torch tensor are never both used (`np.array(7) - torch.tensor(2)`, also + * // % <,
+    raises TypeError inside NumPy / Torch themselves, so harmless arithmetic between two options of a call — `num < 2 ** size` — would fail
+    for a reason that has nothing to do with the library): the case's seed decides which of the two is left out (`drop`)."""
+
+    def __init__(self, iseed, drop=None):
+        super().__init__(iseed)
+        self.drop = drop if drop is not None else None if iseed is None else ("t0d" if iseed % 2 else "np0d")
+
+    def __call__(self, n, allowed=qc.INT_FORMS, narrow=True):
+        n = int(n)
+        if self.rng is None:
+            v, d = super().__call__(n)
+            d["pos"] = False
+            return v, d
+        v, d = super().__call__(n, tuple(f for f in fit_forms(n, allowed) if f != self.drop))
+        if narrow and self.rng.random() < 0.2:
+            fits = [(nm, ty) for nm, ty in NARROW if np.iinfo(ty).min <= n <= np.iinfo(ty).max]
+            if fits:
+                nm, ty = self.rng.choice(fits)
+                v, d["form"] = ty(n), nm
+        d["pos"] = self.rng.random() < 0.6
+        return v, d
+
+
+def streams(case):
+    """(has the case its own form streams?, integer stream, flag stream); a form the case forces for `size` / `num_visible` decides which
+    of the two 0-d forms the stream leaves out"""
+    forced = {case.get("size_form"), case.get("nv_form")}
+    drop = "np0d" if "t0" in forced else "t0d" if "arr0" in forced else None
+    return "iseed" in case, IntStream(case.get("iseed"), drop), qc.Flags(case.get("fseed"))
+
+
+def _cnt(ctx, call, opt, d):
+    ctx.count(f"argform:{call}.{opt}={d['form']}/{'pos' if d.get('pos') else 'kw'}")
+
+
+def build_state(ctx, kind, nv, it, fl, nh=1, na=1, nv_form=None):
+    """a FRESH state of the given class (sizes branch of the constructor) with num_visible / num_hidden / num_aux / gpu in the forms and
+    positions of the case's streams (nv_form: force this form for num_visible)"""
+    cls = {"pos": qc.PositiveWaveFunction, "cplx": qc.ComplexWaveFunction, "dm": qc.DensityMatrix}[kind]
+    opts = [("num_visible", nv), ("num_hidden", nh)] + ([("num_aux", na)] if kind == "dm" else [])
+    args, kw, positional = [], {}, True
+    for nm, x in opts:
+        v, d = it(x)
+        if nm == "num_visible" and nv_form is not None:
+            v, d["form"] = as_form(x, nv_form), nv_form
+        if positional and d["pos"]:
+            args.append(v)
+        else:
+            kw[nm], positional, d["pos"] = v, False, False
+        _cnt(ctx, "ctor", nm, d)
+    g, dg = fl(False)
+    if positional and dg["pos"]:
+        args += [g] if kind == "pos" else [None, g]      # (…, unitary_dict=None, gpu) for the other two classes
+    else:
+        kw["gpu"], dg["pos"] = g, False
+    _cnt(ctx, "ctor", "gpu", dg)
+    return cls(*args, **kw)
+
+
+def form_call(ctx, it, st, method, num, size, dform=None, omit_size=False, size_obj=None):
+    """st.generate_hilbert_space(size, device) / st.subspace_vector(num, size, device) with every integer option in the form and position
+    drawn from the case's stream.  size None: the value None itself (keyword or positional) or, with omit_size, not specified.
+    size_obj: the object to hand over as `size` (a form forced by the case) instead of a drawn one."""
+    args, kw, positional = [], {}, True
+    if method == "subspace_vector":
+        s_eff = int(size) if size else int(st.num_visible)      # beyond 62 sites (masks outside int64) the index stays a Python int
+        v, d = it(num, allowed=("py",) if s_eff > 62 else NUM_ALLOWED + (("np.int32",) if s_eff <= 30 else ()), narrow=False)
+        if d["pos"]:
+            args.append(v)
+        else:
+            kw["num"], positional = v, False
+        _cnt(ctx, method, "num", d)
+    if omit_size:
+        positional = False
+        ctx.count(f"argform:{method}.size=omitted")
+    else:
+        if size_obj is not None or size is None:
+            v, d = size_obj, {"form": "forced" if size_obj is not None else "None", "pos": it.rng.random() < 0.6}
+        else:
+            v, d = it(size)
+        if positional and d["pos"]:
+            args.append(v)
+        else:
+            kw["size"], positional, d["pos"] = v, False, False
+        _cnt(ctx, method, "size", d)
+    dev = dev_kw(dform)
+    if dev:
+        if positional and it.rng.random() < 0.5:
+            args.append(dev["device"])
+            ctx.count(f"argform:{method}.device=pos")
+        else:
+            kw.update(dev)
+    return getattr(st, method)(*args, **kw)
+
+
 def as_form(x, form):
     """the integer argument x as a python int / numpy integer scalar / 0-d ndarray / 0-d tensor (None and 0 are passed as they are)"""
     if not x or form in (None, "int"):
@@ -183,7 +314,9 @@ def bits_of(k, n):
 def space_case(ctx, case):
     """generate_hilbert_space(size) in full (small n) or on sampled rows (large n); guard and default cases."""
     kind, nv, size, full = case["state"], case["nv"], case["size"], case["full"]
-    st = get_state(kind, nv)
+    ctx.current_case = case
+    stream, it, fl = streams(case)
+    st = build_state(ctx, kind, nv, it, fl, nv_form=case.get("nv_form")) if stream else get_state(kind, nv)
     s = eff_size(size, nv)
     ctx.count(f"space:eff_size={s}")
     ctx.count("space:size_arg=" + ("None" if size is None else "0" if size == 0 else "given"))
@@ -192,8 +325,15 @@ def space_case(ctx, case):
     try:
         sz_arg = as_form(size, case.get("size_form"))
         kw = dev_kw(case.get("device_form"))
-        ctx.count(f"space:size_form={case.get('size_form') or 'int'}"); ctx.count(f"space:device_form={case.get('device_form') or 'omit'}")
-        sp = st.generate_hilbert_space(sz_arg, **kw) if case.get("pass_size", True) else st.generate_hilbert_space(**kw)
+        ctx.count(f"space:size_form={case.get('size_form') or ('stream' if stream else 'int')}"); ctx.count(f"space:device_form={case.get('device_form') or 'omit'}")
+        forced = sz_arg if case.get("size_form") is not None and size else None      # the case names the form of `size` itself
+
+        def call(method, num=None):
+            return form_call(ctx, it, st, method, num, size, case.get("device_form"), omit_size=not case.get("pass_size", True), size_obj=forced)
+        if stream:
+            sp = call("generate_hilbert_space")
+        else:
+            sp = st.generate_hilbert_space(sz_arg, **kw) if case.get("pass_size", True) else st.generate_hilbert_space(**kw)
         err = None
     except Exception as e:  # noqa: BLE001
         sp, err = None, errname(e)
@@ -239,7 +379,10 @@ def space_case(ctx, case):
     subs = []
     for k in sub_ks:
         kf = as_form(k, case.get("num_form")) if k else k
-        v = st.subspace_vector(kf, sz_arg, **kw) if case.get("pass_size", True) else st.subspace_vector(kf, **kw)
+        if stream:
+            v = call("subspace_vector", k)
+        else:
+            v = st.subspace_vector(kf, sz_arg, **kw) if case.get("pass_size", True) else st.subspace_vector(kf, **kw)
         subs.append(v.to(torch.int64).tolist())
         ctx.count("space:subspace_calls")
     pos = {k: i for i, k in enumerate(ks)}
@@ -264,14 +407,19 @@ def space_case(ctx, case):
 def subspace_case(ctx, case):
     """subspace_vector(num, size) for arbitrary num (also >= 2^size) and size (no guard in the code)."""
     kind, nv, size, nums = case["state"], case["nv"], case["size"], case["nums"]
-    st = get_state(kind, nv)
+    ctx.current_case = case
+    stream, it, fl = streams(case)
+    st = build_state(ctx, kind, nv, it, fl) if stream else get_state(kind, nv)
     s = eff_size(size, nv)
     ctx.case({"k": "sub", **case}, nontrivial=s >= 2, sample={"op": "subspace_vector", "size": size, "nv": nv, "nums": nums[:3]})
     ctx.count("sub:size_arg=" + ("None" if size is None else "0" if size == 0 else ("<=20" if size <= 20 else ">20")))
     impl = []
     for num in nums:
         nf = case.get("num_form") if num < 2 ** 62 else None
-        v = st.subspace_vector(as_form(num, nf) if num else num, as_form(size, case.get("size_form")), **dev_kw(case.get("device_form")))
+        if stream:
+            v = form_call(ctx, it, st, "subspace_vector", num, size, case.get("device_form"))
+        else:
+            v = st.subspace_vector(as_form(num, nf) if num else num, as_form(size, case.get("size_form")), **dev_kw(case.get("device_form")))
         impl.append(v.to(torch.int64).tolist())
         ctx.oracle("subspace_vector == big-endian low bits", impl[-1] == bits_of(num, s) and v.dtype == torch.double and tuple(v.shape) == (s,),
                    {**case, "nums": [num]}, sig="sub/bits", theorem=TH["sub"], detail={"impl": impl[-1], "want": bits_of(num, s)})
@@ -324,7 +472,9 @@ def kron_case(ctx, case):
     rotate_rho == U rho U^dagger with np.kron (site 0 the leftmost factor). Oracle only (the model of these functions is C04's)."""
     from qucumber.utils import unitaries as un
     n, basis = case["n"], case["basis"]
-    st = get_state("cplx", n)
+    ctx.current_case = case
+    stream, it, fl = streams(case)
+    st = build_state(ctx, "cplx", n, it, fl, nh=2) if stream else get_state("cplx", n)
     ctx.case({"k": "kron", **case}, nontrivial=n >= 2 and len(set(basis)) > 1, sample={"op": "rotate_psi/rotate_rho vs np.kron", "basis": basis})
     ctx.count(f"kron:n={n}")
     d = st.unitary_dict
@@ -359,16 +509,35 @@ def kron_case(ctx, case):
 MUTATIONS = ("flip_spin", "sample_overwrite", "edit", "zero_", "fill_", "complement", "numpy_view", "copy_")
 
 
-def mutate_in_place(st, t, how, rng_seed):
-    """modify a tensor previously returned by the library IN PLACE with public tools"""
+def mutate_in_place(st, t, how, rng_seed, it=None, fl=None):
+    """modify a tensor previously returned by the library IN PLACE with public tools (it / fl: the calling case's form streams for the
+    integer / boolean options of these tools — flip_spin's site, sample's k and overwrite; None: plain Python values, as before)"""
     r = random.Random(rng_seed)
     if how == "flip_spin":
         from qucumber.observables.pauli import flip_spin
-        flip_spin(r.randrange(t.shape[-1]), t)
+        i = r.randrange(t.shape[-1])
+        if it is None:
+            flip_spin(i, t)
+        else:
+            iv, d = it(i, allowed=TOOL_ALLOWED, narrow=False)
+            d["opt"] = "flip_spin.i"
+            flip_spin(iv, t) if d["pos"] else flip_spin(i=iv, samples=t)
     elif how == "sample_overwrite":      # used as the initial state of Markov chains that are advanced in place
         torch.manual_seed(rng_seed)
         if t.dim() == 2 and t.shape[1] == st.num_visible:
-            st.sample(k=3, initial_state=t, overwrite=True)
+            if it is None or fl is None:
+                st.sample(k=3, initial_state=t, overwrite=True)
+            else:
+                kv, dk = it(3, allowed=TOOL_ALLOWED, narrow=False)
+                ow, do = fl(True)
+                dk["opt"], do["opt"] = "sample.k", "sample.overwrite"
+                do["pos"] = dk["pos"] and do["pos"]
+                if dk["pos"] and do["pos"]:
+                    st.sample(kv, 1, t, ow)
+                elif dk["pos"]:
+                    st.sample(kv, initial_state=t, overwrite=ow)
+                else:
+                    st.sample(k=kv, initial_state=t, overwrite=ow)
         t.copy_(1 - t)                   # (and in any case not what it was)
     elif how == "edit":
         flat = t.view(-1)
@@ -406,8 +575,24 @@ def alias_case(ctx, case):
     Every result is compared with the model (rows of the big-endian enumeration) and must not share storage with an earlier one."""
     from qucumber.utils import unitaries as un
     size, how = case["size"], case["how"]
-    A = get_state(case["state"], case["nv"])
-    Bst = new_state(case["other_state"], case["other_nv"])    # a different object even when class and size coincide
+    ctx.current_case = case
+    stream, it, fl = streams(case)
+    if stream:
+        A = build_state(ctx, case["state"], case["nv"], it, fl)
+        Bst = build_state(ctx, case["other_state"], case["other_nv"], it, fl)
+    else:
+        A = get_state(case["state"], case["nv"])
+        Bst = new_state(case["other_state"], case["other_nv"])    # a different object even when class and size coincide
+    mit, mfl = (it, fl) if stream else (None, None)
+
+    def gen(st, sz, omit=False):
+        """st.generate_hilbert_space(sz) — with the case's form streams: size in a drawn form, by keyword or positionally"""
+        if stream:
+            return form_call(ctx, it, st, "generate_hilbert_space", None, sz, omit_size=omit)
+        return st.generate_hilbert_space() if omit else st.generate_hilbert_space(sz)
+
+    def subv(st, k, sz):
+        return form_call(ctx, it, st, "subspace_vector", k, sz) if stream else st.subspace_vector(k, sz)
     ctx.case({"k": "alias", **case}, nontrivial=size >= 2, sample={"op": "generate twice, mutate the first result in place, generate again",
                                                                    "size": size, "how": how, "states": [case["state"], case["other_state"]]})
     ctx.count("alias_case"); ctx.count(f"alias:how={how}"); ctx.count(f"alias:size={size}")
@@ -440,32 +625,32 @@ def alias_case(ctx, case):
         for (nm, e) in earlier:   # reported after the value comparisons (the mechanism, not the symptom)
             deferred.append((f"alias[{label}]: the result does not share storage with {nm}", not shares_memory(sp, e), sub))
 
-    g1 = A.generate_hilbert_space(size)
+    g1 = gen(A, size)
     check("first", g1, size, case["nv"], [])
-    g2 = A.generate_hilbert_space(size)
+    g2 = gen(A, size)
     check("second call", g2, size, case["nv"], [("the first result", g1)])
     g2_bytes = g2.numpy().tobytes()
-    mutate_in_place(A, g1, how, case["seed"])
+    mutate_in_place(A, g1, how, case["seed"], mit, mfl)
     deferred.append(("alias: modifying the first result leaves the second result unchanged", g2.numpy().tobytes() == g2_bytes, {**case, "step": "mutate"}))
-    g3 = A.generate_hilbert_space(size)
+    g3 = gen(A, size)
     check("after the first result was modified in place", g3, size, case["nv"], [("the first result", g1), ("the second result", g2)])
-    g4 = Bst.generate_hilbert_space(size)
+    g4 = gen(Bst, size)
     check("another state object", g4, size, case["other_nv"], [("the first result", g1)])
     if case["nv"] == size:
-        g5 = A.generate_hilbert_space() if case["seed"] % 2 else A.generate_hilbert_space(0)
+        g5 = gen(A, None, omit=True) if case["seed"] % 2 else gen(A, 0)
         check("default size", g5, None if case["seed"] % 2 else 0, case["nv"], [("the first result", g1)])
     osz = case["other_size"]
-    h1 = A.generate_hilbert_space(osz)
-    mutate_in_place(A, h1, MUTATIONS[(MUTATIONS.index(how) + 3) % len(MUTATIONS)], case["seed"] + 1)
-    check("other size, after an earlier result of that size was modified", Bst.generate_hilbert_space(osz), osz, case["other_nv"], [("the earlier result", h1)])
-    check("first size again", A.generate_hilbert_space(size), size, case["nv"], [("the first result", g1)])
+    h1 = gen(A, osz)
+    mutate_in_place(A, h1, MUTATIONS[(MUTATIONS.index(how) + 3) % len(MUTATIONS)], case["seed"] + 1, mit, mfl)
+    check("other size, after an earlier result of that size was modified", gen(Bst, osz), osz, case["other_nv"], [("the earlier result", h1)])
+    check("first size again", gen(A, size), size, case["nv"], [("the first result", g1)])
     # ---- subspace_vector
     for k in case["nums"]:
         sub = {**case, "step": f"subspace_vector({k})"}
-        v1 = A.subspace_vector(k, size)
-        mutate_in_place(A, v1, "complement" if how in ("flip_spin", "sample_overwrite") else how if how != "numpy_view" else "edit", case["seed"] + 2)
-        v2 = A.subspace_vector(k, size)
-        v3 = Bst.subspace_vector(k, size)
+        v1 = subv(A, k, size)
+        mutate_in_place(A, v1, "complement" if how in ("flip_spin", "sample_overwrite") else how if how != "numpy_view" else "edit", case["seed"] + 2, mit, mfl)
+        v2 = subv(A, k, size)
+        v3 = subv(Bst, k, size)
         for nm, v in (("same state", v2), ("another state", v3)):
             ctx.oracle(f"alias: subspace_vector({k}) after an earlier result was modified in place ({nm}) == big-endian bits",
                        v.tolist() == [float(b) for b in bits_of(k, size)] and not shares_memory(v, v1), sub,
@@ -476,7 +661,7 @@ def alias_case(ctx, case):
                       exact=True, sig="alias/sub", theorem=TH["sub"])
     # ---- an internal user of the enumeration: `size` rotated sites, explicit psi, vs the dense Kronecker product
     n = case["rot_n"]
-    C = get_state("cplx", n)
+    C = build_state(ctx, "cplx", n, it, fl) if stream else get_state("cplx", n)
     basis = case["rot_basis"]
     d = C.unitary_dict
     U = np.array([[1.0 + 0j]])
@@ -484,13 +669,30 @@ def alias_case(ctx, case):
         U = np.kron(U, d[b][0].numpy() + 1j * d[b][1].numpy())
     psi = np.array(case["psi_re"]) + 1j * np.array(case["psi_im"])
     states_t = torch.tensor(rows_of(n), dtype=torch.double)
-    out = un.rotate_psi_inner_prod(C, basis, states_t, psi=torch.tensor(np.stack([psi.real, psi.imag]), dtype=torch.double)).numpy()
+    psi_t = torch.tensor(np.stack([psi.real, psi.imag]), dtype=torch.double)
+    if stream:      # `include_extras` (documented bool: "also return the terms of the sum and the expanded states") in every flag form, by
+        # keyword or as the sixth positional argument; the amplitudes are the first entry of the tuple when extras are returned
+        ex, dex = fl(bool(case["seed"] & 4))
+        _cnt(ctx, "rotate_psi_inner_prod", f"include_extras[{dex['value']}]", dex)
+        res = un.rotate_psi_inner_prod(C, basis, states_t, None, psi_t, ex) if dex["pos"] else \
+            un.rotate_psi_inner_prod(C, basis, states_t, psi=psi_t, include_extras=ex)
+        out = (res[0] if isinstance(res, (tuple, list)) else res).numpy()
+    else:
+        out = un.rotate_psi_inner_prod(C, basis, states_t, psi=psi_t).numpy()
     got = out[0] + 1j * out[1]
     ctx.oracle("alias: rotate_psi_inner_prod (uses the enumeration of the rotated sites internally) == kron(U_0..U_{n-1}) psi at every index",
                bool(np.allclose(got, U @ psi, rtol=1e-10, atol=1e-12)), {**case, "step": "rotate_psi_inner_prod"},
                detail={"impl": [str(x) for x in got[:4]], "want": [str(x) for x in (U @ psi)[:4]]}, sig="alias/kron", theorem=TH["kron"])
     for (name, ok, sub) in deferred:
         ctx.oracle(name, ok, sub, sig="alias/shared-storage", theorem=TH["space"])
+    for d in it.used + fl.used:      # the forms handed to the in-place tools (flip_spin's site, sample's k / overwrite)
+        if "opt" in d:
+            _cnt(ctx, "tool", d["opt"], d)
+
+
+def form_seeds(rng):
+    """seeds of the case's own form streams (IntStream / qc.Flags); only the seeds are stored, a replay rebuilds the same objects"""
+    return {"iseed": rng.randrange(2 ** 31), "fseed": rng.randrange(2 ** 31)}
 
 
 def gen_alias_case(rng, thorough):
@@ -505,7 +707,8 @@ def gen_alias_case(rng, thorough):
     return {"kind": "alias", "state": rng.choice(kinds), "nv": nv, "other_state": rng.choice(kinds), "other_nv": other_nv, "size": size,
             "other_size": rng.choice([k for k in range(1, 7) if k != size]), "how": rng.choice(MUTATIONS), "seed": rng.randrange(1 << 30),
             "nums": [rng.randrange(2 ** size) for _ in range(2)] + [2 ** size - 1],
-            "rot_n": rot_n, "rot_basis": basis, "psi_re": [rng.gauss(0, 1) for _ in range(D)], "psi_im": [rng.gauss(0, 1) for _ in range(D)]}
+            "rot_n": rot_n, "rot_basis": basis, "psi_re": [rng.gauss(0, 1) for _ in range(D)], "psi_im": [rng.gauss(0, 1) for _ in range(D)],
+            **form_seeds(rng)}
 
 
 # ================================================================= part 1c: position k of the arrays the library produces / accepts
@@ -575,12 +778,19 @@ def onehot_case(ctx, case):
     am, ph = case["am"], case.get("ph")
     D = 2 ** n
     rows = qc.all_states(n)
+    ctx.current_case = case
+    stream, it, fl = streams(case)
+    # the sizes and the gpu flag handed to the state / RBM constructors (both construction paths of the qc builders) in the case's forms
+    (n_o, dn), (h_o, dh), (a_o, da), (g_o, dg) = it(n), it(h), it(a), fl(False)
+    for nm, d in (("num_visible", dn), ("num_hidden", dh), ("num_aux", da if kind == "dm" else None), ("gpu", dg)):
+        if stream and d is not None:
+            ctx.count(f"argform:ctor(qc builder).{nm}={d['form']}")
     if kind == "pos":
-        st = qc.make_positive(n, h, am)
+        st = qc.make_positive(n_o, h_o, am, gpu=g_o)
     elif kind == "cplx":
-        st = qc.make_complex(n, h, am, ph)
+        st = qc.make_complex(n_o, h_o, am, ph, gpu=g_o)
     else:
-        st = qc.make_density(n, h, a, am, ph)
+        st = qc.make_density(n_o, h_o, a_o, am, ph, gpu=g_o)
     U = np.array([[1.0 + 0j]])
     for b in basis:
         U = np.kron(U, UNITARY[b])
@@ -588,7 +798,7 @@ def onehot_case(ctx, case):
     ctx.case({"k": "onehot", **case}, nontrivial=n >= 2 and len(set(basis)) > 1 and k != l,
              sample={"op": "one-hot at k through psi/rho/probability/rotate_*/fidelity/KL", "state": kind, "n": n, "k": k, "l": l, "basis": basis})
     ctx.count(f"onehot:{kind}"); ctx.count(f"onehot:n={n}")
-    space = st.generate_hilbert_space()
+    space = form_call(ctx, it, st, "generate_hilbert_space", None, None, omit_size=it.rng.random() < 0.5) if stream else st.generate_hilbert_space()
     th = "C19_position_k, C19_position_k_states, C19_row_is_binary_expansion"
     tha = "C19_position_k, C19_kron_index_finProd (C04_rotate_psi / C04_index_convention for the rotation)"
 
@@ -604,7 +814,8 @@ def onehot_case(ctx, case):
         got = cnp(st.psi(space))
         orc("psi(space)[k] == psi at the big-endian expansion of k, every k", cclose(got, psi), sig="psi",
             detail={"first_bad": next((i for i in range(D) if not cclose(got[i:i + 1], psi[i:i + 1])), None), "impl_k": str(got[k]), "want_k": str(psi[k])})
-        one = cnp(st.psi(st.subspace_vector(k)).reshape(2, -1))
+        vk = form_call(ctx, it, st, "subspace_vector", k, None, omit_size=it.rng.random() < 0.5) if stream else st.subspace_vector(k)
+        one = cnp(st.psi(vk).reshape(2, -1))
         orc("psi(subspace_vector(k)) == psi(space)[k]", cclose(one.ravel(), psi[k:k + 1]), sig="psi-sub", detail={"impl": str(one), "want": str(psi[k])})
         gp = st.probability(space).detach().numpy()
         orc("probability(space)[k] == |psi_k|^2", cclose(gp, prob), sig="probability")
@@ -684,7 +895,7 @@ def gen_onehot_case(rng, thorough):
     k = rng.randrange(D)
     l = rng.choice([x for x in range(D) if x != k]) if D > 1 else k
     case = {"kind": "onehot", "state": kind, "n": n, "h": h, "k": k, "l": l, "basis": "".join(rng.choice("XYZ") for _ in range(n)),
-            "pass_space": rng.random() < 0.5}
+            "pass_space": rng.random() < 0.5, **form_seeds(rng)}
     if kind == "dm":
         case["a"] = a
         case["am"] = qc.rand_prbm_params(rng, n, h, a, sc)
@@ -706,10 +917,14 @@ def intarg_case(ctx, case):
         exception) is counted and compared with the int64 model (QV.Model.HilbertInt) in counters and a note — never a property or
         auxiliary point, because another correct implementation may legitimately answer differently there."""
     kind, nv, num, size = case["state"], case["nv"], case["num"], case["size"]
-    st = get_state(kind, nv)
+    ctx.current_case = case
+    stream, it, fl = streams(case)
+    st = build_state(ctx, kind, nv, it, fl) if stream else get_state(kind, nv)
     ctx.case({"k": "intarg", **case}, nontrivial=True, sample={"op": "subspace_vector / generate_hilbert_space with out-of-domain integers", "num": num, "size": size})
+    # inside the domain (0 <= num < 2^63, size >= 0 or unspecified) the arguments take the forms of the case's stream; outside it plain ints
+    in_dom = 0 <= num < 2 ** 63 and (size is None or size >= 0)
     try:
-        v = st.subspace_vector(num, size)
+        v = form_call(ctx, it, st, "subspace_vector", num, size) if stream and in_dom else st.subspace_vector(num, size)
         sub = v.to(torch.int64).tolist() if v.dim() == 1 else {"bad-rank": v.dim()}
     except Exception as e:  # noqa: BLE001
         sub = "raised:" + errname(e)
@@ -767,7 +982,7 @@ def gen_intarg_case(rng):
     else:
         num = rng.randrange(2 ** 10)
         size = rng.choice([None, 0, rng.randrange(1, 13), 21, 25])
-    return {"kind": "intarg", "state": rng.choice(["pos", "cplx", "dm"]), "nv": nv, "num": num, "size": size}
+    return {"kind": "intarg", "state": rng.choice(["pos", "cplx", "dm"]), "nv": nv, "num": num, "size": size, **form_seeds(rng)}
 
 
 # ================================================================= part 2: files
@@ -1408,30 +1623,38 @@ def run_all(ctx, thorough, scale=1):
         how = rng.choice(["size", "default", "zero"])
         case = {"kind": "space", "state": kinds[n % 3], "nv": n if how != "size" else rng.choice([n, 1, 3]), "full": True,
                 "size": n if how == "size" else (None if how == "default" else 0), "pass_size": how != "default" or rng.random() < 0.5,
-                "size_form": rng.choice(SIZE_FORMS), "num_form": rng.choice(NUM_FORMS), "device_form": rng.choice(DEVICE_FORMS)}
+                "device_form": rng.choice(DEVICE_FORMS), **form_seeds(rng)}
         space_case(ctx, case)
-    # every way of passing the size / index / device arguments, on small spaces
-    for sf in SIZE_FORMS:
-        for df in DEVICE_FORMS:
-            n = rng.randrange(1, 7)
-            space_case(ctx, {"kind": "space", "state": rng.choice(kinds), "nv": rng.choice([n, 2]), "full": True, "size": n, "pass_size": True,
-                             "size_form": sf, "num_form": rng.choice(NUM_FORMS), "device_form": df})
+    # every way of passing the size / device arguments, on small spaces: the form of `size` is forced (key "size_form"), the other options
+    # (constructor sizes, gpu, the index of subspace_vector, keyword / positional) come from the case's streams
+    for sf in SIZE_SWEEP:
+        for i, df in enumerate(DEVICE_FORMS):
+            n = rng.randrange(1, 9)      # (up to 8: 2 ** size leaves np.int8 / np.uint8); half of the states have another number of visible units
+            space_case(ctx, {"kind": "space", "state": rng.choice(kinds), "nv": n if i % 2 else (2 if n != 2 else 3), "full": True, "size": n, "pass_size": True,
+                             "size_form": sf, "device_form": df, **form_seeds(rng)})
+    # the DEFAULT size (num_visible as the constructor received it) with num_visible in every form, one by one (key "nv_form")
+    for nf in SIZE_SWEEP:
+        for kd in kinds:
+            n = rng.randrange(8, 11)
+            how = rng.choice(["default", "zero", "omit"])
+            space_case(ctx, {"kind": "space", "state": kd, "nv": n, "full": False, "size": 0 if how == "zero" else None, "pass_size": how != "omit",
+                             "nsamp": 20, "ks_seed": rng.randrange(10 ** 9), "nv_form": nf, "device_form": rng.choice(DEVICE_FORMS), **form_seeds(rng)})
     # ---- sampled rows, n = 9/13 .. 20 (20 always: the boundary of the guard)
     big = list(range(nmax + 1, 21))
     for n in big:
         how = rng.choice(["size", "default"]) if n != 20 else ("size" if rng.random() < 0.5 else "default")
         case = {"kind": "space", "state": rng.choice(kinds), "nv": n if how == "default" else 2, "full": False,
                 "size": n if how == "size" else None, "nsamp": 200 if thorough else 60, "ks_seed": rng.randrange(10 ** 9),
-                "size_form": rng.choice(SIZE_FORMS), "num_form": rng.choice(NUM_FORMS), "device_form": rng.choice(DEVICE_FORMS)}
+                "device_form": rng.choice(DEVICE_FORMS), **form_seeds(rng)}
         space_case(ctx, case)
     if thorough:   # n = 20 through both call forms
-        space_case(ctx, {"kind": "space", "state": "dm", "nv": 20, "full": False, "size": 0, "nsamp": 100})
-        space_case(ctx, {"kind": "space", "state": "pos", "nv": 3, "full": False, "size": 20, "nsamp": 100})
+        space_case(ctx, {"kind": "space", "state": "dm", "nv": 20, "full": False, "size": 0, "nsamp": 100, **form_seeds(rng)})
+        space_case(ctx, {"kind": "space", "state": "pos", "nv": 3, "full": False, "size": 20, "nsamp": 100, **form_seeds(rng)})
     # ---- guard / default cases (malformed stream)
     for (size, nv) in [(21, 2), (None, 21), (0, 21), (22, 20), (64, 3), (0, 3), (None, 4), (1000, 2), (21, 21)] + \
             [(rng.randrange(21, 40), rng.randrange(1, 6)) for _ in range(3 * scale)]:
         space_case(ctx, {"kind": "space", "state": rng.choice(kinds), "nv": nv, "size": size, "full": eff_size(size, nv) <= nmax, "nsamp": 20,
-                         "size_form": rng.choice(SIZE_FORMS), "device_form": rng.choice(DEVICE_FORMS)})
+                         "device_form": rng.choice(DEVICE_FORMS), **form_seeds(rng)})
     # ---- (a') results handed out earlier are modified in place between calls
     for how in MUTATIONS * (3 if thorough else 1):
         c = gen_alias_case(rng, thorough)
@@ -1447,7 +1670,7 @@ def run_all(ctx, thorough, scale=1):
         nums = [rng.randrange(2 ** s) for _ in range(4)] + [0, 2 ** s - 1, rng.randrange(2 ** s, 2 ** min(s + 3, 62) + 1), 2 ** s,
                                                              rng.randrange(2 ** 62)]
         subspace_case(ctx, {"kind": "sub", "state": rng.choice(kinds), "nv": nv, "size": size, "nums": nums,
-                            "size_form": rng.choice(SIZE_FORMS), "num_form": rng.choice(NUM_FORMS), "device_form": rng.choice(DEVICE_FORMS)})
+                            "device_form": rng.choice(DEVICE_FORMS), **form_seeds(rng)})
     # ---- (c) index
     for _ in range((300 if thorough else 25) * scale):
         n = rng.choice([1, 2, 3, 4, 5, 6, 8, 10, 12, 16, 20, 24, 30])
@@ -1458,7 +1681,7 @@ def run_all(ctx, thorough, scale=1):
         D = 2 ** n
         g = lambda: rng.gauss(0, 1)  # noqa: E731
         case = {"kind": "kron", "n": n, "basis": "".join(rng.choice("XYZ") for _ in range(n)), "k": rng.randrange(D),
-                "psi_re": [g() for _ in range(D)], "psi_im": [g() for _ in range(D)]}
+                "psi_re": [g() for _ in range(D)], "psi_im": [g() for _ in range(D)], **form_seeds(rng)}
         if n <= 3:
             case["rho_re"] = [[g() for _ in range(D)] for _ in range(D)]
             case["rho_im"] = [[g() for _ in range(D)] for _ in range(D)]
@@ -1470,7 +1693,7 @@ def run_all(ctx, thorough, scale=1):
     for c in [{"kind": "intarg", "state": "pos", "nv": 3, "num": -1, "size": 3}, {"kind": "intarg", "state": "dm", "nv": 2, "num": 5, "size": -1},
               {"kind": "intarg", "state": "cplx", "nv": 2, "num": 2 ** 63, "size": 4}, {"kind": "intarg", "state": "pos", "nv": 2, "num": 2 ** 62 + 1, "size": 65},
               {"kind": "intarg", "state": "pos", "nv": 4, "num": -2 ** 63, "size": 64}]:
-        intarg_case(ctx, c)
+        intarg_case(ctx, {**c, **form_seeds(rng)})
     for _ in range((150 if thorough else 25) * scale):
         intarg_case(ctx, gen_intarg_case(rng))
     # ---- (e) files
